@@ -9,7 +9,7 @@
 (* array).  Matches(cat, v) is what the category's identifier function     *)
 (* answers for v.  Categories are tried in a fixed order.                  *)
 (***************************************************************************)
-EXTENDS Naturals, Sequences, FiniteSets, TLC, Json
+EXTENDS Naturals, Sequences, FiniteSets, TLC
 CONSTANTS Blocklisted,     \* TRUE: instance-dependent types are on the cache blocklist (as in the code)
           MaxCalls
 VARIABLES memo, calls, last, hist
@@ -18,7 +18,7 @@ rvars == <<memo, calls, last, hist>>
 Cats == <<"SEQUENCE", "MAPPING">>          \* order of the identifier functions
 Types == {"dict", "list", "str", "both", "neither", "array"}
 Insts == {0, 1}
-Values == {[ty |-> t, inst |-> i] : t \in Types, i \in Insts}
+Values == [ty : Types, inst : Insts]
 InstanceDependent(t) == t = "array"
 
 Matches(cat, v) ==
@@ -46,5 +46,4 @@ Next == \E v \in Values : GetType(v)
 C19_HistoryIndependent == calls > 0 => last.r = FirstMatch(last.v)
 \* the memo is sound: a cached type has one category for all its instances
 MemoSound == \A t \in DOMAIN memo : \A i \in Insts : FirstMatch([ty |-> t, inst |-> i]) = memo[t]
-ExportHist == calls = MaxCalls => PrintT("HIST " \o ToJson(hist))
 =============================================================================
